@@ -14,11 +14,11 @@ import (
 const blevePath = "github.com/blevesearch/bleve/v2"
 
 type gor struct {
-	ID     string
-	State  string   // "chan receive", "select", "sync.RWMutex.RLock", "running", ...
-	Funcs  []string // function names, innermost first
-	TopBleve string // innermost function of a bleve/v2 frame ("" if none)
-	Text   string
+	ID       string
+	State    string   // "chan receive", "select", "sync.RWMutex.RLock", "running", ...
+	Funcs    []string // function names, innermost first
+	TopBleve string   // innermost function of a bleve/v2 frame ("" if none)
+	Text     string
 }
 
 func allStacks() string {
